@@ -83,6 +83,11 @@ func main() {
 	}
 	switch os.Args[1] {
 	case "probe":
+		go func() { // never outlive the driver's own limit (a mutated library may loop forever)
+			time.Sleep(100 * time.Second)
+			fmt.Println("probe: workload did not finish")
+			os.Exit(4)
+		}()
 		if err := props.Probe(); err != nil {
 			fmt.Println("probe failed:", err)
 			os.Exit(3)
